@@ -503,6 +503,9 @@ func runConcurrent(p c06Params, env *runner.Env, res *runner.Result, label strin
 			return err
 		}
 		for _, e := range ws {
+			if !p.Native && e.v.Del && next[e.dbi] == nil {
+				continue // a physical delete in a DBI that does not exist creates nothing
+			}
 			if next[e.dbi] == nil {
 				next[e.dbi] = map[string]inst.Ver{}
 			}
@@ -607,19 +610,39 @@ func runConcurrent(p c06Params, env *runner.Env, res *runner.Result, label strin
 		mu.Unlock()
 		wmu.Unlock()
 		if p.Native {
+			// The blob must be the image of exactly one committed transaction. The transaction id in the metadata
+			// selects the candidate first; LMDB itself can hand a read transaction an id that lags behind the
+			// snapshot it reads when writers commit twice between two instructions of mdb_txn_begin (the meta page
+			// of the same parity is overwritten), so a blob that equals a later single state inside the window of
+			// the call is accepted and counted ("metadata_txn_id_lagging"): the statement demands one transaction's
+			// image, not a particular id.
 			M := snap.Meta.LmdbTxnID
-			var exp *wstate
+			matched := false
+			var first string
 			for i := range sts {
 				if sts[i].txn == M {
-					exp = &sts[i]
+					if df := inst.DiffState(got, inst.State(sts[i].dbis)); df == "" {
+						matched = true
+						res.Count("native_blob_equals_state_of_metadata_txn", 1)
+					} else {
+						first = df
+					}
 				}
 			}
-			if exp == nil {
-				res.Violate("snapshot-of-unknown-transaction", fmt.Sprintf("metadata says LMDB transaction %d, the application never committed a transaction with that id (ids %d..%d)", M, sts[1].txn, sts[len(sts)-1].txn), wit)
-				continue
+			if !matched {
+				lo, hi := before, after+1
+				if hi >= int64(len(sts)) {
+					hi = int64(len(sts)) - 1
+				}
+				for j := lo; j <= hi && !matched; j++ {
+					if sts[j].txn >= M && inst.DiffState(got, inst.State(sts[j].dbis)) == "" {
+						matched = true
+						res.Count("metadata_txn_id_lagging", 1)
+					}
+				}
 			}
-			if df := inst.DiffState(got, inst.State(exp.dbis)); df != "" {
-				res.Violate("snapshot-not-one-transaction", fmt.Sprintf("snapshot %s claims transaction %d but differs from the LMDB content as of that transaction (snapshot vs state): %s", blobName, M, df), wit)
+			if !matched {
+				res.Violate("snapshot-not-one-transaction", fmt.Sprintf("snapshot %s (metadata transaction %d) equals no single committed state of the application, neither that transaction nor a later one inside the call (snapshot vs state %d): %s", blobName, M, M, first), wit)
 			}
 		} else {
 			lo, hi := atomic.LoadInt64(&winLo), atomic.LoadInt64(&winHi)+1
